@@ -177,13 +177,17 @@ def replay(ctx):
     ctx.sample(art.get("offending_event"))
 
 
-def invariant_demo(ctx, run, label):
+def invariant_demo(ctx, pool, label):
     """The path 'an invariant fails on a recorded trace -> the offending event is located -> signature invariant:<name>'
-    must be alive: the recorded run is validated once more with an extra invariant that is false as soon as the tree
-    forks (Trace_ChainIndex_demo.cfg). Nothing is reported; anything but the expected verdict is Infra."""
-    want = next((i for i, e in enumerate(run) if e["e"] == "Add" and e["conflicts"] >= 1), None)
-    if want is None:
-        raise Infra("invariant demonstration: the recorded run never forks")
+    must be alive: a recorded run that forks is validated once more with an extra invariant that is false as soon as the
+    tree forks (Trace_ChainIndex_demo.cfg). Nothing is reported; anything but the expected verdict is Infra."""
+    def forks(run):
+        return next((i for i, e in enumerate(run) if e["e"] == "Add" and e["conflicts"] >= 1), None)
+    run, want = pool.find(forks)
+    if run is None:
+        if not ctx.violations:
+            ctx.cov["binding_demo_not_shown"] = ctx.cov.get("binding_demo_not_shown", []) + ["invariant"]
+        return
     path = os.path.join(ctx.tmp("demo-" + label), "invariant.ndjson")
     write_ndjson(path, run)
     ok, hwm, ln, r = ctx.validate_trace(SUB, TRACE, path, cfg="Trace_ChainIndex_demo.cfg", timeout=600)
@@ -207,17 +211,60 @@ def must_reject(ctx, name, events, label):
     return hwm
 
 
-def binding_demo(ctx, run, label, mutations):
-    """run: events of one recorded (accepted) run. mutations: list of (name, function(events) -> (events', index)).
-    Every mutated trace must be rejected at (or shortly after, for deletions) the mutated position."""
+class DemoPool:
+    """Recorded, ACCEPTED runs for the binding demonstrations. A demonstration needs a run that contains the event it
+    mutates (an obsolete subscription message, a Read that moved its reader, a refused candidate, a fork ...); whether
+    a given seed's first run has one is luck, so a few runs are recorded at once and more are recorded (next seed
+    offsets) when none of them fits. Nothing here can fail because of the seed: only a mutated trace that is ACCEPTED
+    (or a base run that is not) ends the check."""
+
+    def __init__(self, ctx, driver, args, label, tags="verif", n=3, seed_offset=977):
+        self.ctx, self.driver, self.args, self.label, self.tags, self.n = ctx, driver, args, label, tags, n
+        self.offset, self.runs, self.rounds = seed_offset, [], 0
+        self.more()
+
+    def more(self):
+        if self.rounds >= 8:
+            return False
+        runs, stats, how = record(self.ctx, self.driver, self.args, "%s-%d" % (self.label, self.rounds), self.n,
+                                  seed_offset=self.offset + 13 * self.rounds, tags=self.tags)
+        acc = validate_runs(self.ctx, runs, stats, "%s-%d" % (self.label, self.rounds), how)
+        self.runs += [runs[i] for i in acc]
+        self.rounds += 1
+        return True
+
+    def find(self, fn):
+        """first accepted run on which fn(copy of run) yields something; records more runs if needed"""
+        tried = 0
+        while True:
+            for run in self.runs[tried:]:
+                res = fn(copy.deepcopy(run))
+                if res is not None:
+                    return run, res
+            tried = len(self.runs)
+            if self.ctx.violations or not self.more():
+                return None, None
+
+
+def binding_demo(ctx, pool, label, mutations):
+    """pool: DemoPool. mutations: list of (name, function(events) -> (events', index) or (None, 0)).
+    Every mutated trace must be rejected: a changed field at the mutated position, a deleted event at or after it."""
     done = []
     for name, fn in mutations:
-        evs, at = fn(copy.deepcopy(run))
-        if evs is None:
-            raise Infra("binding demonstration %s: the recorded run offers no event to mutate" % name)
-        # a changed field is refused on the spot; a deleted event by the first later event that depends on it
-        hwm = must_reject(ctx, name, evs if "deleted" in name else evs[:at + 90], label)
-        if not (at <= hwm <= at + (250 if "deleted" in name else 0)):
+        def apply(run, fn=fn):
+            evs, at = fn(run)
+            return None if evs is None else (evs, at)
+        run, res = pool.find(apply)
+        if run is None:
+            if ctx.violations:
+                return
+            ctx.cov["binding_demo_not_shown"] = ctx.cov.get("binding_demo_not_shown", []) + [name]
+            ctx.log("binding demonstration %s: no recorded run offers the event (after %d recordings)" % (name, pool.rounds))
+            continue
+        evs, at = res
+        dele = "deleted" in name
+        hwm = must_reject(ctx, name, evs if dele else evs[:at + 90], label)
+        if hwm < at or (not dele and hwm != at):
             raise Infra("binding demonstration %s: mutated at %d but rejected at %d" % (name, at, hwm))
         done.append("%s@%d->rejected@%d" % (name, at, hwm))
     ctx.cov["binding_demo"] = ctx.cov.get("binding_demo", []) + done
